@@ -19,7 +19,8 @@ LEVEL = "fault_enumeration"
 RULE = (
     "fault enumeration on the inbound stream: for one sample frame of every status/answer kind per generation, every single-bit "
     "flip at every bit position of prefix, outer lengths (AT5), covered bytes and check bytes; all double-bit flips within a "
-    "32-bit window (thorough: every pair on two frames); bursts of 2..16 bits at every offset with random interior; plus seeded "
+    "32-bit window (thorough: every pair on two frames); bursts of 2..16 bits at every offset with random interior; error patterns "
+    "confined to the two check bytes (swapped, one byte repeated, complemented, constants, random; thorough: all 65535 on one frame); plus seeded "
     "random frames / corruptions. Each corruption is one simulated run: [intact A][damaged][intact B] -> FIN -> probe on the "
     "re-established connection. Clause 1 (the function): the console checks every client frame's CRC with a bitwise reference "
     "and, as supporting non-simulation evidence, calculate() is compared with the reference on all 1- and 2-byte strings "
@@ -34,7 +35,7 @@ ASSUMPTIONS = [
     "the two pad bytes of the undocumented AT5 outer header are not 'covered bytes' and are not corrupted",
     "the exhaustive 1..2-byte comparison of calculate() is a plain function comparison, not simulation; the 3-byte enumeration and the induction on length of the property text are not reproduced",
 ]
-PROBES = ["c06.single_bit", "c06.double_bit", "c06.burst", "c06.in_prefix", "c06.in_length", "c06.in_crc", "c06.in_payload", "c06.waited_for_bytes", "c06.function_audit"]
+PROBES = ["c06.single_bit", "c06.double_bit", "c06.burst", "c06.check_bytes_only", "c06.in_prefix", "c06.in_length", "c06.in_crc", "c06.in_payload", "c06.waited_for_bytes", "c06.function_audit"]
 EXHAUSTIVE = True
 TRUSTED_BASE = ["ref/crc.py (bitwise CRC-16/MODBUS)", "ref/wire4.py, ref/wire5.py (framing)"]
 
@@ -77,10 +78,35 @@ def _positions(gen: int, n_bytes: int):
     return [b for b in range(n_bytes * 8) if b not in skip]
 
 
+def _check_byte_patterns(fr: bytes, rng=None, exhaustive: bool = False):
+    """Error patterns confined to the two check bytes (bursts <= 16 bits): what a receiver that is lenient about byte
+    order, initial value or one of the two bytes would let through."""
+    hi, lo = fr[-2], fr[-1]
+    cands = {
+        "swap": (lo, hi), "hi_twice": (hi, hi), "lo_twice": (lo, lo), "complement": (hi ^ 0xFF, lo ^ 0xFF), "zero": (0, 0), "ones": (0xFF, 0xFF),
+        "hi_only_wrong": (hi ^ 0x5A, lo), "lo_only_wrong": (hi, lo ^ 0xA5), "plus_one": (((hi << 8 | lo) + 1 >> 8) & 0xFF, (lo + 1) & 0xFF),
+    }
+    out = []
+    for name, (a, b) in sorted(cands.items()):
+        x = ((hi ^ a) << 8) | (lo ^ b)
+        if x:
+            out.append((name, x))
+    if exhaustive:
+        out += [("cb%04x" % x, x) for x in range(1, 65536)]
+    elif rng is not None:
+        out += [("cb%04x" % x, x) for x in (rng.randrange(1, 65536) for _ in range(24))]
+    for name, x in out:
+        base = (len(fr) - 2) * 8
+        yield name, [base + i for i in range(16) if x & (0x8000 >> i)]
+
+
 def enumerated(tier: str):
     for gen in (4, 5):
         samples = _samples(gen)
         for i, (kind, fr) in enumerate(samples):
+            # the check bytes alone: order, single byte, constants (every sample), every 16-bit pattern (thorough, one sample)
+            for name, bits in _check_byte_patterns(fr, random.Random(31 * gen + i), exhaustive=(tier == "thorough" and i == 0)):
+                yield _scenario(gen, kind, fr, bits, "checkbytes", with_neighbours=(i % 2 == 0))
             pos = _positions(gen, len(fr))
             # every single-bit flip
             for b in pos:
@@ -112,8 +138,11 @@ def generate(rng, index: int, tier: str) -> dict:
     gen = rng.choice([4, 5])
     fr, kind = framegen.frame(rng, gen)
     pos = _positions(gen, len(fr))
-    pattern = rng.choice(["single", "double", "double", "burst", "burst"])
-    if pattern == "single":
+    pattern = rng.choice(["single", "double", "double", "burst", "burst", "checkbytes"])
+    if pattern == "checkbytes":
+        pats = list(_check_byte_patterns(fr, rng))
+        bits = rng.choice(pats)[1]
+    elif pattern == "single":
         bits = [rng.choice(pos)]
     elif pattern == "double":
         bits = sorted(rng.sample(pos, 2))
@@ -152,6 +181,18 @@ def _function_audit(tier: str):
             if calc.calculate(s) != refcrc.crc_bytes(s):
                 bad.append(s.hex())
                 break
+    for a in range(256):
+        for b in range(0, 256, 5):
+            s = bytes((a, b, a ^ b))
+            good = refcrc.crc_bytes(s)
+            n += 1
+            if not calc.validate(s, good):
+                bad.append("validate rejects " + s.hex())
+                break
+            for wrong in (good[::-1], bytes((good[0], good[0])), bytes((good[1], good[1])), bytes((good[0] ^ 0xFF, good[1] ^ 0xFF)), bytes((good[0], good[1] ^ 1))):
+                if wrong != good and calc.validate(s, wrong):
+                    bad.append("validate accepts " + s.hex() + "+" + wrong.hex())
+                    break
     s = bytes(range(256)) * 3
     if calc.calculate(s) != refcrc.crc_bytes(s) or not calc.validate(s, refcrc.crc_bytes(s)) or calc.validate(s, b"\0\0"):
         bad.append("long")
@@ -178,7 +219,7 @@ def execute(sc: dict) -> dict:
     t_in, t_pr = inp["at"], (prb["at"] if prb else 1e9)
     got = [m for m in w.messages if t_in <= m["t"] < t_pr]
     pattern = info.get("pattern", "?")
-    probes["c06." + {"single": "single_bit", "double": "double_bit", "burst": "burst"}.get(pattern, "single_bit")] = 1
+    probes["c06." + {"single": "single_bit", "double": "double_bit", "burst": "burst", "checkbytes": "check_bytes_only"}.get(pattern, "single_bit")] = 1
     hl = 8 if gen == 4 else 20
     pre = 2 if gen == 4 else 14
     for b in info.get("bits", []):
